@@ -36,15 +36,42 @@ def collections(tier):
             docs.append(to_text(ro_delete(mid, ro_id=rid)))
             mid += 1
         mixed = two_ids and (n_rc >= 2 or n_other >= 1 or n_rd >= 1) and len(docs) >= 2
-        for inc in (False, True):
-            accept = (len(docs) > 0 and not mixed and n_rc == 1 and n_rd <= 1 and (inc or n_rd == 1))
-            yield docs, inc, accept, {'rc': n_rc, 'rd': n_rd, 'other': n_other, 'mixed': mixed}
+        shapes = [('std', docs)]
+        if n_rc >= 1 and len(docs) > n_rc:
+            # the roCreate(s) supplied last
+            shapes.append(('rc-last', docs[n_rc:] + docs[:n_rc]))
+        if n_rc == 1 and n_other >= 1:
+            # another message carries the roCreate's message ID and is supplied before / after it
+            same = docs[1].replace('<messageID>2</messageID>', '<messageID>1</messageID>')
+            assert same != docs[1]
+            shapes.append(('dup-id-before', [same, docs[0]] + docs[2:]))
+            shapes.append(('dup-id-after', [docs[0], same] + docs[2:]))
+        for shape, dl in shapes:
+            for inc in (False, True):
+                accept = (len(dl) > 0 and not mixed and n_rc == 1 and n_rd <= 1 and (inc or n_rd == 1))
+                yield dl, inc, accept, {'rc': n_rc, 'rd': n_rd, 'other': n_other, 'mixed': mixed, 'shape': shape}
+
+
+CLASS_OF = {'roReplace': 'RunningOrderReplace', 'roStoryAppend': 'StoryAppend', 'roReadyToAir': 'ReadyToAir', 'roDelete': 'RunningOrderEnd'}
+
+
+def expected_readers(docs):
+    """(message ID of the roCreate, [[message ID, class]] of the other messages, ascending, supplied order kept among equals)"""
+    import re
+    rows = []
+    for t in docs:
+        mid = int(re.search(r'<messageID>(\d+)</messageID>', t).group(1))
+        tag = re.search(r'</messageID><(\w+)', t).group(1)
+        rows.append((mid, tag))
+    ro = [m for m, tag in rows if tag == 'roCreate'][0]
+    rest = sorted([[m, CLASS_OF[tag]] for m, tag in rows if tag != 'roCreate'], key=lambda x: x[0])
+    return ro, rest
 
 
 class Check:
     pid = 'C11'
     rule = ('every multiset with 0..2 [0..3] roCreates x 0..2 roDeletes x 0..2 other messages (roReplace, roStoryAppend, roReadyToAir) x {one, two running-order '
-            'IDs} x allow_incomplete in {False, True}, each built through MosCollection.from_strings in a fresh interpreter '
+            'IDs} x {roCreate supplied first, last, another message sharing its message ID before / after it} x allow_incomplete in {False, True}, each built through MosCollection.from_strings in a fresh interpreter '
             'with default flags and with -O. distinct by (counts, mixed ids, allow_incomplete, flags, outcome)')
 
     def matches_known(self, k, v):
@@ -65,7 +92,7 @@ class Check:
         for (docs, inc, accept, meta), mo, a, b in zip(cols, model, res['default'], res['-O']):
             for flag, r in (('default', a), ('-O', b)):
                 n += 1
-                sigs.add((meta['rc'], meta['rd'], meta['other'], meta['mixed'], inc, flag, r[0] if r[0] == 'ok' else r[1]))
+                sigs.add((meta['rc'], meta['rd'], meta['other'], meta['mixed'], meta['shape'], inc, flag, r[0] if r[0] == 'ok' else r[1]))
                 what = None
                 if accept and r[0] != 'ok':
                     what = 'a valid collection %r (allow_incomplete=%s, %s) was rejected with %s' % (meta, inc, flag, r[1])
@@ -74,9 +101,10 @@ class Check:
                 elif not accept and r[1] != 'InvalidMosCollection':
                     what = 'an invalid collection %r raised %s, not InvalidMosCollection (%s)' % (meta, r[1], flag)
                 elif accept:
-                    rc_ids = [k for k, t in enumerate(docs) if '<roCreate>' in t]
-                    if r[1] != rc_ids[0] + 1 or [x[0] for x in r[2]] != [k + 1 for k in range(len(docs)) if k not in rc_ids]:
-                        what = 'accepted collection has ro %r and readers %r' % (r[1], r[2])
+                    want_ro, want_readers = expected_readers(docs)
+                    if r[1] != want_ro or r[3] != 'RunningOrder' or [list(x) for x in r[2]] != want_readers:
+                        what = ('accepted collection has ro %r (%s) and readers %r; the roCreate is %r and the other messages are %r'
+                                % (r[1], r[3], r[2], want_ro, want_readers))
                 if what:
                     vio.append({'what': what, 'case': {'kind': 'collection', 'docs': docs, 'inc': inc, 'flag': flag, 'meta': meta},
                                 'impl': r[:2], 'expected': 'accept' if accept else 'InvalidMosCollection'})
